@@ -1569,7 +1569,10 @@ fn maybe_base_specifier(
     reader: &mut ContentReader<'_>,
 ) -> Result<Option<BaseSpecifier>, TokenError> {
     let mut lookahead = reader.clone();
-    if let Some(value) = parse_base_specifier(&mut lookahead)? {
+    // An error in the lookahead (a character outside of Latin-1) means that this is
+    // not a base specifier. It must not be propagated: the reader has consumed nothing,
+    // so the caller would see the same error forever.
+    if let Ok(Some(value)) = parse_base_specifier(&mut lookahead) {
         reader.set_to(&lookahead);
         Ok(Some(value))
     } else {
